@@ -73,6 +73,7 @@ def find_bad(wd, events, tag):
 
 def run(rep, tier, seed):
     thorough = tier == "thorough"
+    rep.level = "proof"
     rep.assumptions += ["generator words are uniform (PCG's statistical quality is trusted)", "Go's % and >> on uint64/uint32",
                         "S4 (2^W splits evenly over a power-of-two n) is checked by TLC at small widths only; z3 answers UNKNOWN on it at W=64"]
     with Work("c05") as w:
